@@ -358,3 +358,127 @@ func TestProp_C16_manager(t *testing.T) {
 		k.Done()
 	})
 }
+
+// ---------------------------------------------------------------------------------------------
+// C16, request queue: more requests than the manager's queue holds when it is shut down.
+
+const ruleQueue = "a real BlockManager whose first request hangs (its only download attempt never starts), 9..13 further AddRequest calls made from their own goroutines so that the queue of 10 fills and the last callers block inside AddRequest, then shutdown (interrupt) after a drawn delay, optionally followed by late AddRequest calls; oracle: Run returns within 10 s, EVERY AddRequest call returns within 10 s of the shutdown (with channels or with nil, nil), a request never receives two terminal signals, and no goroutine stays parked in a block_manager.go frame; non-trivial = at least one caller was blocked inside AddRequest (queue full) when the shutdown came; distinct = (requests, shutdown delay class, late adds)"
+
+func TestProp_C16_queue(t *testing.T) {
+	col := evid.For("C16", "queue", ruleQueue)
+	rapid.Check(t, func(t *rapid.T) {
+		k := col.NewCase()
+		ctx := vt.Ctx()
+		extra := rapid.IntRange(9, 13).Draw(t, "furtherRequests")
+		delayMs := rapid.SampledFrom([]int{0, 1, 5, 20}).Draw(t, "shutdownAfterMs")
+		late := rapid.IntRange(0, 2).Draw(t, "lateAdds")
+		log := spy.NewLog()
+		req := &scriptedRequestor{blocks: map[model.Hash]*blockDef{}, fates: map[model.Hash][]string{}, calls: map[model.Hash]int{},
+			limit: 1, finishes: map[model.Hash]int{}}
+		bm := bitcoin_reader.NewBlockManager(spy.BlockTxs{L: log}, req, 1, 2*time.Millisecond)
+		req.bm = bm
+		first := mkBlock(77000 + int(rapid.Uint32Range(0, 1000).Draw(t, "salt"))*20)
+		req.blocks[first.hash] = first
+		req.fates[first.hash] = []string{"never"}
+		interrupt := make(chan interface{})
+		runDone := make(chan struct{})
+		go func() { bm.Run(ctx, interrupt); close(runDone) }()
+		var mu sync.Mutex
+		signals := map[int]int{}
+		returned := 0
+		var wg sync.WaitGroup
+		add := func(i int, b *blockDef) {
+			defer wg.Done()
+			complete, _ := bm.AddRequest(ctx, bitcoin.Hash32(b.hash), 100+i, spy.Processor{L: log})
+			mu.Lock()
+			returned++
+			mu.Unlock()
+			if complete == nil {
+				return
+			}
+			// collect terminal signals for a while (a closed channel counts once)
+			deadline := time.After(300 * time.Millisecond)
+			for {
+				select {
+				case _, ok := <-complete:
+					mu.Lock()
+					signals[i]++
+					mu.Unlock()
+					if !ok {
+						return
+					}
+				case <-deadline:
+					return
+				}
+			}
+		}
+		wg.Add(1)
+		go add(0, first)
+		// wait until the first request is in progress
+		deadline := time.Now().Add(5 * time.Second)
+		for {
+			req.mu.Lock()
+			started := req.calls[first.hash] > 0
+			req.mu.Unlock()
+			if started {
+				break
+			}
+			if time.Now().After(deadline) {
+				t.Fatalf("setup: the first request was never picked up")
+			}
+			time.Sleep(200 * time.Microsecond)
+		}
+		for i := 1; i <= extra; i++ {
+			b := mkBlock(77000 + i)
+			req.mu.Lock()
+			req.blocks[b.hash] = b
+			req.mu.Unlock()
+			wg.Add(1)
+			go add(i, b)
+		}
+		time.Sleep(time.Duration(delayMs)*time.Millisecond + 2*time.Millisecond)
+		mu.Lock()
+		blocked := 1 + extra - returned
+		mu.Unlock()
+		close(interrupt)
+		for i := 0; i < late; i++ {
+			b := mkBlock(78000 + i)
+			req.mu.Lock()
+			req.blocks[b.hash] = b
+			req.mu.Unlock()
+			wg.Add(1)
+			go add(100+i, b)
+		}
+		select {
+		case <-runDone:
+		case <-time.After(termBound):
+			t.Fatalf("BlockManager.Run did not return within %s after shutdown with %d requests (%d callers blocked in AddRequest): %v", termBound, 1+extra, blocked, firstLines(parkedIn("block_manager.go")))
+		}
+		allReturned := make(chan struct{})
+		go func() { wg.Wait(); close(allReturned) }()
+		select {
+		case <-allReturned:
+		case <-time.After(termBound):
+			mu.Lock()
+			r := returned
+			mu.Unlock()
+			t.Fatalf("%d of %d AddRequest calls never returned after the shutdown (queue of 10, %d callers were blocked in AddRequest when it came): %v", 1+extra+late-r, 1+extra+late, blocked, firstLines(parkedIn("block_manager.go")))
+		}
+		for i, n := range signals {
+			if n > 1 {
+				t.Fatalf("request %d received %d terminal signals", i, n)
+			}
+		}
+		time.Sleep(time.Millisecond)
+		if parked := parkedIn("block_manager.go"); len(parked) > 0 {
+			time.Sleep(50 * time.Millisecond)
+			if parked = parkedIn("block_manager.go"); len(parked) > 0 {
+				t.Fatalf("goroutines left parked in the block manager after shutdown: %v", firstLines(parked))
+			}
+		}
+		req.wg.Wait()
+		k.Op("requests=%d delay=%d late=%d blocked=%v", 1+extra, delayMs, late, blocked > 0)
+		k.NonTrivial = blocked > 0
+		k.Done()
+	})
+}
